@@ -13,7 +13,8 @@ namespace BfeVerif.C07
 
 /-- **C07 (full strength)**: whatever the cluster configuration, the scripts (transport errors, retry
     decisions, HandleForward verdicts), the schedule of clusterInvoke / FinishReq steps of several
-    requests - with health-check events (backends taken out / coming back) at arbitrary points in between -
+    requests - with health-check events (backends taken out / coming back) and reloads that remove a backend from the table
+    at arbitrary points in between, filters or transports that panic -
     and the random cross-sub-cluster choices: after every schedule each backend's connNum
     equals the number of requests currently assigned to it, is never negative, and is zero once every
     invoked request has finished.  (A schedule is arbitrary, so this covers every prefix.) -/
@@ -183,5 +184,21 @@ example : let g := runSched realPolicy cfg1 [⟨true, true, [], [], none⟩] (G.
     g.conn 0 = 1 ∧ g.conn 1 = 0 := by decide
 example : let g := runSched realPolicy cfg1 [⟨true, true, [], [], none⟩] (G.init cfg1 1) [.inv 0, .down 0, .up 0, .fin 0] []
     g.conn 0 = 0 ∧ g.conn 1 = 0 := by decide
+
+/-- a backend removed by a reload of the backend table while a request is in flight on it: the old object keeps
+    the count until FinishReq, is never negative, and new requests go elsewhere -/
+example : let g := runSched realPolicy cfg1 [⟨true, true, [], [], none⟩, ⟨true, true, [], [], none⟩] (G.init cfg1 2) [.inv 0, .remove 0, .inv 1] []
+    g.conn 0 = 1 ∧ g.conn 1 = 1 := by decide
+example : let g := runSched realPolicy cfg1 [⟨true, true, [], [], none⟩, ⟨true, true, [], [], none⟩] (G.init cfg1 2) [.inv 0, .remove 0, .inv 1, .fin 0, .fin 1] []
+    g.conn 0 = 0 ∧ g.conn 1 = 0 := by decide
+
+/-- a panicking HandleForward filter leaves nothing counted; a panic inside RoundTrip (after IncConnNum) leaves the
+    request counted for ever because conn.serve's recover skips FinishReq - the model mirrors this (known finding
+    `leak-after-panic`); `C07_balanced`'s equation still holds, its last clause does not apply (the request is
+    never `done`) -/
+example : let g := runSched realPolicy cfg1 [⟨true, true, [⟨.panic, .ok 200⟩], [], none⟩] (G.init cfg1 1) [.inv 0, .fin 0] []
+    g.conn 0 = 0 ∧ g.conn 1 = 0 := by decide
+example : let g := runSched realPolicy cfg1 [⟨true, true, [⟨.goon, .panic⟩], [], none⟩] (G.init cfg1 1) [.inv 0, .fin 0] []
+    g.conn 0 = 1 ∧ (g.rqs.map (·.done)) = [false] := by decide
 
 end BfeVerif.C07
